@@ -536,3 +536,166 @@ func H_C07_retained() {
 	}
 	vReach("end")
 }
+
+// vProgEnc: a user-written ArrayValue that drives the Encoder interface with an arbitrary
+// short sequence of element operations (scalars, reflected values incl. unmarshallable ones,
+// nested arrays and objects).
+type vProgEnc struct{ ops []int }
+
+const vProgOps = 11
+
+func (p vProgEnc) EncodeArray(enc Encoder) {
+	for _, op := range p.ops {
+		switch op {
+		case 0:
+			enc.AppendInt64(-3)
+		case 1:
+			enc.AppendUint64(7)
+		case 2:
+			enc.AppendFloat64(1.5)
+		case 3:
+			enc.AppendFloat64(math.NaN())
+		case 4:
+			enc.AppendBool(true)
+		case 5:
+			enc.AppendString("s\n")
+		case 6:
+			enc.AppendReflect(map[string]int{"a": 1})
+		case 7:
+			enc.AppendReflect(make(chan int))
+		case 8:
+			enc.AppendArrayBegin()
+			enc.AppendInt64(1)
+			enc.AppendArrayEnd()
+		case 9:
+			enc.AppendObjectBegin()
+			enc.AppendKey("k")
+			enc.AppendInt64(1)
+			enc.AppendObjectEnd()
+		default:
+			enc.AppendArrayBegin()
+			enc.AppendArrayEnd()
+		}
+	}
+}
+
+func vProgWant(ops []int) *vJ {
+	want := vJArr()
+	for _, op := range ops {
+		var w *vJ
+		switch op {
+		case 0:
+			w = vJNum("-3")
+		case 1:
+			w = vJNum("7")
+		case 2:
+			w = vJNum("1.5")
+		case 3:
+			w = vJStr("NaN")
+		case 4:
+			w = vJBool(true)
+		case 5:
+			w = vJStr("s\n")
+		case 6:
+			w = vJObj()
+			w.add("a", vJNum("1"))
+		case 7:
+			w = vJStr("json: unsupported type: chan int")
+		case 8:
+			w = vJArr(vJNum("1"))
+		case 9:
+			w = vJObj()
+			w.add("k", vJNum("1"))
+		default:
+			w = vJArr()
+		}
+		want.vals = append(want.vals, w)
+	}
+	return want
+}
+
+//verif:witness H_C07_array end
+//verif:bound C07 all Array with a custom encoder: every sequence of 1..3 element operations over 11 kinds (int, uint, float, NaN, bool, string with a line break, reflected map, reflected unmarshallable value, nested array, nested object, empty array) followed by an ordinary field; the line must parse and decode to the elements in order
+func H_C07_array() {
+	n := 1 + vChoose("nops", 3)
+	ops := make([]int, n)
+	for i := range ops {
+		ops[i] = vChoose("op", vProgOps)
+	}
+	e := &Event{Level: InfoLevel, Time: vFixedTime, File: "file.go", Line: 10, Tag: "_t_x"}
+	e.Fields = []Field{Array("arr", vProgEnc{ops}), Int("z", 1)}
+	want := vJObj()
+	want.add("level", vJStr("info"))
+	want.add("time", vJStr("2025-06-01T12:30:45.123"))
+	want.add("fileLine", vJStr("file.go:10"))
+	want.add("tag", vJStr("_t_x"))
+	want.add("arr", vProgWant(ops))
+	want.add("z", vJNum("1"))
+	l := &JSONLayout{BaseLayout{FileLineLength: 48}}
+	out := l.ToBytes(e)
+	vObserve("line", out)
+	got, ok := vParseJSONLine(out)
+	vAssert(ok, "custom-array-encoder-yields-valid-json")
+	if ok {
+		vAssert(vJEqual(got, want), "custom-array-elements-decode-in-order")
+	}
+	vReach("end")
+}
+
+// vReentrantEnc: a value whose encoder itself logs (re-entrant logging under the same context).
+type vReentrantEnc struct {
+	l   *JSONLayout
+	ctx []Field
+	out *[]byte
+}
+
+func (r vReentrantEnc) EncodeArray(enc Encoder) {
+	enc.AppendInt64(1)
+	inner := &Event{Level: WarnLevel, Time: vFixedTime, File: "in.go", Line: 20, Tag: "_t_y"}
+	inner.CtxFields = r.ctx
+	inner.Fields = []Field{String("x", "9"), String("y", "8")}
+	*r.out = r.l.ToBytes(inner)
+}
+
+//verif:witness H_C07_reentrant end
+//verif:bound C07 all two events sharing one context-field slice (1 field, spare capacity 0 or 4), the second formatted while the first is being encoded (its custom array encoder logs): each line must decode to its own fields, and the caller's context slice is left as it was
+func H_C07_reentrant() {
+	spare := [2]int{0, 4}[vChoose("spare", 2)]
+	ctx := make([]Field, 1, 1+spare)
+	ctx[0] = Int("cf", 5)
+	l := &JSONLayout{BaseLayout{FileLineLength: 48}}
+	var innerOut []byte
+	e := &Event{Level: InfoLevel, Time: vFixedTime, File: "file.go", Line: 10, Tag: "_t_x"}
+	e.CtxFields = ctx
+	e.Fields = []Field{Array("arr", vReentrantEnc{l, ctx, &innerOut}), String("a", "1"), String("b", "2")}
+	out := l.ToBytes(e)
+	want := vJObj()
+	want.add("level", vJStr("info"))
+	want.add("time", vJStr("2025-06-01T12:30:45.123"))
+	want.add("fileLine", vJStr("file.go:10"))
+	want.add("tag", vJStr("_t_x"))
+	want.add("cf", vJNum("5"))
+	want.add("arr", vJArr(vJNum("1")))
+	want.add("a", vJStr("1"))
+	want.add("b", vJStr("2"))
+	got, ok := vParseJSONLine(out)
+	vAssert(ok, "outer-line-is-valid-json")
+	if ok {
+		vAssert(vJEqual(got, want), "outer-event-decodes-to-its-own-fields")
+	}
+	wantIn := vJObj()
+	wantIn.add("level", vJStr("warn"))
+	wantIn.add("time", vJStr("2025-06-01T12:30:45.123"))
+	wantIn.add("fileLine", vJStr("in.go:20"))
+	wantIn.add("tag", vJStr("_t_y"))
+	wantIn.add("cf", vJNum("5"))
+	wantIn.add("x", vJStr("9"))
+	wantIn.add("y", vJStr("8"))
+	gotIn, okIn := vParseJSONLine(innerOut)
+	vAssert(okIn, "inner-line-is-valid-json")
+	if okIn {
+		vAssert(vJEqual(gotIn, wantIn), "inner-event-decodes-to-its-own-fields")
+	}
+	vAssert(len(ctx) == 1 && ctx[0].Key == "cf", "context-slice-unchanged")
+	vReach("end")
+}
